@@ -22,11 +22,11 @@ type Embed struct {
 const embedKinds = 8 // kind 8 (unary strings) is only chosen when a program uses starts_with
 
 // orderedKinds preserve the integer order of constants (needed when lt/le guards are used).
-var orderedKinds = []int{0, 1, 5}
+var orderedKinds = []int{0, 1, 5, 9}
 
 // sameTypeKinds map all constants to one term type (needed when == is used: comparing values of
 // different types is an error in Biscuit, not "false").
-var sameTypeKinds = []int{0, 1, 2, 4, 5, 6, 7}
+var sameTypeKinds = []int{0, 1, 2, 4, 5, 6, 7, 9}
 
 // cmp: 0 = the program compares nothing, 1 = uses == / !=, 2 = uses < / <=
 func newEmbed(seed int64, cmp int) *Embed {
@@ -121,6 +121,12 @@ func (e *Embed) Const(c int) biscuit.Term {
 		t = biscuit.Set{biscuit.Integer(int64(c)), biscuit.Integer(100)}
 	case 7:
 		t = biscuit.Set{biscuit.Bytes([]byte{byte(c)}), biscuit.Bytes([]byte{200, 1})}
+	case 9: // constant i is the set {0..i}: x <= y iff x is a subset of y; the order comparisons become set operations
+		s := biscuit.Set{}
+		for k := c; k >= 0; k-- { // descending: an element that survives an intersection changes its position
+			s = append(s, biscuit.Integer(int64(k)))
+		}
+		t = s
 	case 8: // constant i is "a" repeated 12-i times: x.starts_with(y) iff x <= y (larger ids are shorter strings)
 		t = biscuit.String(strings.Repeat("a", 12-c))
 	}
